@@ -161,10 +161,33 @@ var ruleLowerCase = &core.Rule{ID: "R12.3", Min: 4,
 					continue
 				}
 				rs := fde.FindRangeOver(f, val)
+				lf := f             // function holding the lower-casing loop
+				var lval ssa.Value = val // the slice it ranges over
+				var via *ssa.Call   // helper call, when the loop was extracted
+				if len(rs) != 1 {
+					for _, ref := range *val.Referrers() {
+						hc, ok := ref.(*ssa.Call)
+						if !ok {
+							continue
+						}
+						g := hc.Call.StaticCallee()
+						if g == nil || !core.InMod(g) || g.Blocks == nil {
+							continue
+						}
+						for i, a := range hc.Call.Args {
+							if a == val {
+								if hr := fde.FindRangeOver(g, g.Params[i]); len(hr) == 1 {
+									rs, lf, lval, via = hr, g, g.Params[i], hc
+								}
+							}
+						}
+					}
+				}
 				if len(rs) != 1 {
 					s.Bad(key, c.Pos(call.Pos()), "no loop over the attribute value lower-casing it before use: labels such as UTF-8 would be reported in upper case")
 					continue
 				}
+				_ = lf
 				r := rs[0]
 				bad := ""
 				ev := newEval(c)
@@ -184,7 +207,7 @@ var ruleLowerCase = &core.Rule{ID: "R12.3", Min: 4,
 								continue
 							}
 							ia, ok := st.Addr.(*ssa.IndexAddr)
-							if !ok || ia.X != val || ia.Index != r.Index {
+							if !ok || ia.X != lval || ia.Index != r.Index {
 								bad = "store to something other than the current element inside the lower-casing loop"
 								continue
 							}
@@ -215,6 +238,18 @@ var ruleLowerCase = &core.Rule{ID: "R12.3", Min: 4,
 				for _, ref := range *val.Referrers() {
 					in := ref
 					if _, dbg := in.(*ssa.DebugRef); dbg {
+						continue
+					}
+					if via != nil {
+						if in == ssa.Instruction(via) {
+							continue
+						}
+						if cl, ok := in.(*ssa.Call); ok && core.IsBuiltin(&cl.Call, "len") {
+							continue
+						}
+						n++
+						k2 := fmt.Sprintf("%s: use #%d of the attribute value after lower-casing", core.FName(f), n)
+						s.Check(core.Before(via, in), k2, c.Pos(in.Pos()), "dominated by the lower-casing helper call", "the attribute value is used before it was lower-cased")
 						continue
 					}
 					if in.Block() == r.Header || in.Block() == r.Body || (r.Body.Dominates(in.Block()) && !r.Done.Dominates(in.Block())) {
